@@ -10,7 +10,7 @@ PID = 'C18'
 STATS = G.STATS
 PARTIAL = [
     "length_curve: polyline >= chord and <= control polygon are checked by the oracle in floating point (sqrt); not a Lean theorem",
-    "hull / bounding box: proved for curves, surfaces and volumes, non-rational and rational (positive weights), at the given-spans level (`SpanOk`); the tie span = findSpanLinear(u) is C01/C03's theorem and is not re-assembled here",
+    "hull / bounding box / clamped ends are assembled through the span search for every parameter of the closed domain (curvePoint / surfacePoint / volumePoint, rational and not); what is NOT a Lean theorem: that find_ctrlpts returns exactly the active control points, and the object layer's dispatch (evaluate_single -> evaluator -> these model functions), both tied by correspondence only; the clamped-end theorems need the first span non-empty (a start knot of multiplicity > p+1 moves the start point to a later control point)",
 ]
 
 
